@@ -22,7 +22,7 @@ import numpy as np
 from harness import common, finder_lib as FL, synth
 
 LEVEL = "model_checking"
-KINDS = ["sparse", "blends", "tiny", "many", "edge", "nanregion", "coincident", "empty", "psfmap", "far"]
+KINDS = ["sparse", "blends", "tiny", "many", "edge", "nanregion", "coincident", "empty", "psfmap", "far", "mixedmaps"]
 
 
 def observe(args):
@@ -35,6 +35,11 @@ def observe(args):
     path = base + ".fits"
     synth.write(path, sc["img"], sc["header"])
     kw = sc["kw"]
+    raw = None
+    if kind == "mixedmaps":
+        synth.write(base + "_rms.fits", np.ones(sc["shape"]), sc["header"])
+        kw["rmsin"] = base + "_rms.fits"
+        raw = sc["img"]
     if "psfmap" in sc:
         from astropy.io import fits
         fits.PrimaryHDU(sc["psfmap"][0], header=sc["psfmap"][1]).writeto(base + "_psf.fits", overwrite=True)
@@ -52,7 +57,7 @@ def observe(args):
             rec["comps"] = [FL.proj_row(s) for s in comps]
             rec["attr"] = [synth.src_token(s) for s in sf.sources if isinstance(s, ComponentSource)]
             if blind:
-                rec["oracle"] = FL.oracle_islands(sf, kw)
+                rec["oracle"] = FL.oracle_islands(sf, kw, raw)
                 omap = {o["num"]: o for o in rec["oracle"]}
                 from astropy.wcs import WCS
                 w = WCS(sc["header"], naxis=2)
@@ -129,8 +134,9 @@ def observe(args):
             recs.append(r3)
         os.remove(catf)
     os.remove(path)
-    if os.path.exists(base + "_psf.fits"):
-        os.remove(base + "_psf.fits")
+    for suf in ("_psf.fits", "_rms.fits"):
+        if os.path.exists(base + suf):
+            os.remove(base + suf)
     return recs
 
 
